@@ -240,7 +240,9 @@ class EscapeSequence(SpanToken):
 
     @classmethod
     def strip(cls, string):
-        return html.unescape(cls.pattern.sub(r'\1', string))
+        # one pass: a character that was backslash-escaped (e.g. "&") cannot start a character reference
+        parts = cls.pattern.split(string)
+        return ''.join(part if i % 2 else html.unescape(part) for i, part in enumerate(parts))
 
 
 class LineBreak(SpanToken):
